@@ -45,6 +45,36 @@ def run(ctx):
         if p.endswith(('.ssd', '.ssd.gz', '.dsd', '.sdd.gz', '.hfe.gz', '.mfm.gz')):
             for cmd in cmds:
                 dfs_cases.append((os.path.basename(p), open(p, 'rb').read(), ['--file', '@' + os.path.basename(p)] + cmd, 'testdata'))
+    # inputs that reach the rarely-run code: multi-member .gz, flux images (clean, with an ID field that names another cylinder or head,
+    # with a record of another size, damaged), images that fail to load
+    import gzip as _gz
+    from gen import flux
+    d = discs.gen_disc(r, variant='dfs', geom=(40, 10), max_files=4)
+    img = d.encode(lambda n: bytes(n))
+    last = ['dump-sector', '0', '39', '9']
+    half = len(img) // 2
+    dfs_cases += [('mm.ssd.gz', _gz.compress(img[:half]) + _gz.compress(img[half:]), ['--file', '@mm.ssd.gz'] + cmd, 'multi-member-gz') for cmd in cmds + [last]]
+    for (label, origin, vlen, f) in d.all_files():
+        dfs_cases.append(('mm.ssd.gz', _gz.compress(img[:1000]) + _gz.compress(img[1000:]), ['--file', '@mm.ssd.gz', 'type', '--binary', common.fsp(label, f)], 'multi-member-gz'))
+    for (fk, mfm, mode) in (('clean', False, None), ('clean', True, None), ('wrong-cylinder', False, 'cyl'), ('wrong-head', True, 'head'), ('odd-size', False, 'size'), ('wrong-cylinder', True, 'cyl')):
+        spt = 18 if mfm else 10
+        dd = discs.gen_disc(r, variant='dfs', geom=(40, spt), max_files=3)
+        im = dd.encode(lambda n: bytes(n))
+        trs = []
+        for t in range(40):
+            secs = {rec: im[(t * spt + rec) * 256:(t * spt + rec + 1) * 256] for rec in range(spt)}
+            cyl, head = t, 0
+            if t == 39 and mode == 'cyl':
+                cyl = 40
+            if t == 38 and mode == 'head':
+                head = 1
+            if t == 37 and mode == 'size':
+                secs[spt - 1] = secs[spt - 1] * 2
+            lay = flux.TrackLayout(mfm=mfm)
+            trs.append([flux.mfm_track(cyl, head, secs, lay) if mfm else flux.fm_track(cyl, head, secs, lay)])
+        for (cname, cimg) in ((('x.mfm', flux.hxcmfm_image(trs, 1)),) if mfm else ()) + (('x.hfe', flux.hfe_image(trs, 1, not mfm)),):
+            for cmd in [['cat'], ['info', '*.*'], ['free'], last if not mfm else ['dump-sector', '0', '39', '17']]:
+                dfs_cases.append((cname, cimg, ['--file', '@' + cname] + cmd, 'flux-' + fk))
     tbls = bc.tables(dbg)
     basic_cases = []
     for name in bc.DIALECT_NAMES + [None, 'PDP11', 'PDP11', 'ARM', 'Mac']:
